@@ -105,9 +105,11 @@ End Lines.
 
 (* ---- the tool on bytes: stdin -> stdout ---- *)
 Definition newline : Z := 10%Z.
+(* the lines FilterParallel hands to the pass: ReadLine('\n', strip_cr) with the flag regenerated from parallel.hh *)
+Definition tool_lines (input : list Z) : list (list Z) := records newline parallel_strip_cr input.
 Definition dedupe_tool (key : list Z -> N) (input : list Z) : res (list Z) :=
-  bind (dedupe (list Z) key (records newline true input)) (fun out => Ok (unrecords newline out)).
+  bind (dedupe (list Z) key (tool_lines input)) (fun out => Ok (unrecords newline out)).
 
 Definition dedupe_par_tool (key : list Z -> N) (input0 input1 : list Z) : res (pstatus * list Z * list Z) :=
-  bind (dedupe_par (list Z) key key (records newline true input0) (records newline true input1)) (fun r =>
+  bind (dedupe_par (list Z) key key (tool_lines input0) (tool_lines input1)) (fun r =>
     Ok (fst r, unrecords newline (map fst (snd r)), unrecords newline (map snd (snd r)))).
